@@ -305,20 +305,16 @@ static void corruption_case(const cfg_t *c, rng_t *rng)
 		for (int j = 0; j < 3; j++) expect_err("of_decode_with_new_symbol", cname[j], c->codec, of_decode_with_new_symbol(d, ref.sym[0], bad_esi[j]));
 		expect_err("of_decode_with_new_symbol", "null-symbol", c->codec, of_decode_with_new_symbol(d, NULL, 0));
 		expect_err("of_set_available_symbols", "null-table", c->codec, of_set_available_symbols(d, NULL));
-		/* a few good symbols, then corruptions again in the middle of decoding */
+		/* every symbol is then submitted, repair symbols first (so that source symbols are really decoded before
+		 * their own copy arrives), with the corruptions repeated in the middle; no of_finish_decoding is needed
+		 * and nothing is submitted after one (protocol-conforming) */
 		uint32_t mid = n / 2;
 		int ok = 1;
 		for (uint32_t i = 0; i < n; i++) {
-			uint32_t esi = n - 1 - i;                      /* repair first: forces a real decode */
+			uint32_t esi = n - 1 - i;
 			if (i == mid) { for (int j = 0; j < 3; j++) expect_err("of_decode_with_new_symbol", cname[j], c->codec, of_decode_with_new_symbol(d, ref.sym[0], bad_esi[j]));
 					expect_err("of_build_repair_symbol", "wrong-role", c->codec, of_build_repair_symbol(d, tab, k)); }
-			if (esi < k && (esi % 3) == 0 && c->r > k / 3 + 1) continue;   /* lose some sources */
 			if (of_decode_with_new_symbol(d, ref.sym[esi], esi) != OF_STATUS_OK) ok = 0;
-		}
-		if (!of_is_decoding_complete(d)) of_finish_decoding(d);
-		if (!of_is_decoding_complete(d)) {
-			/* LDPC may fail on this fixed pattern only if it is unsolvable; give it everything */
-			for (uint32_t i = 0; i < k; i++) of_decode_with_new_symbol(d, ref.sym[i], i);
 		}
 		if (!of_is_decoding_complete(d) || of_get_source_symbols_tab(d, stab) != OF_STATUS_OK) ok = 0;
 		else for (uint32_t i = 0; i < k; i++) {
